@@ -286,10 +286,55 @@ func c19Scenario(c *Ctx, i int, r *Rng) {
 	fail := func(what, impl, sig string) {
 		c.R.Add(Finding{Kind: "oracle", What: what, Case: enc, Impl: clip(impl, 400), Sig: sig})
 	}
+	// fault paths of track: its exits that do not go through the normal return
+	fault := Pick(r, []string{"", "", "", "", "", "missing-worktree-file", "missing-worktree-file", "forbidden-pattern"})
+	instance := map[string]string{"*.dat": "x.dat", "img/*.png": "img/p.png", "a b*.dat": "a bc.dat", "file#1.dat": "file#1.dat", "*.[ch]": "m.c", "/rooted.dat": "rooted.dat"}
+	switch {
+	case fault == "missing-worktree-file" && !filename && instance[arg] != "":
+		// an index entry that matches the new pattern has no file in the working tree (rm without git rm):
+		// track reports an error for it and exits 2
+		f := filepath.Join(wd, instance[arg])
+		os.MkdirAll(filepath.Dir(f), 0o755)
+		os.WriteFile(f, []byte("content\n"), 0o644)
+		runIn(wd, env, "git", "add", "--", instance[arg])
+		os.Remove(f)
+		enc += " fault=missing-worktree-file"
+		c.R.Count("track.fault.missing-worktree-file")
+	case fault == "forbidden-pattern" && !filename:
+		// a pattern that matches .gitattributes itself is refused (exit 1)
+		if pre == "" {
+			os.WriteFile(filepath.Join(wd, ".gitattributes"), []byte("*.keep text\n"), 0o644)
+		}
+		runIn(wd, env, "git", "add", "--", ".gitattributes")
+		arg = Pick(r, []string{".git*", ".gitattributes", ".gita*"})
+		args[len(args)-1] = arg
+		enc += " fault=forbidden-pattern:" + arg
+		c.R.Count("track.fault.forbidden-pattern")
+	default:
+		fault = ""
+	}
 	out1, code1 := runIn(wd, env, c.Lfs, args...)
 	c.R.Count("track")
 	if code1 != 0 {
 		c.R.Count("track.exit-nonzero")
+		// whatever made track give up, the assignments of all OTHER patterns are as they were
+		afterF := checkAttr(dir, others)
+		afterFT := checkAttrOf(dir, "text", others)
+		for _, q := range others {
+			if before[q] != afterF[q] || beforeText[q] != afterFT[q] {
+				fail("`git lfs track` exited non-zero and changed the attributes of a path its argument does not denote", fmt.Sprintf("%s: filter %s -> %s, text %s -> %s (exit %d: %s)", q, before[q], afterF[q], beforeText[q], afterFT[q], code1, clip(out1, 160)), "")
+			}
+		}
+		if fault == "forbidden-pattern" {
+			was := pre
+			if was == "" {
+				was = "*.keep text\n"
+			}
+			now, _ := os.ReadFile(filepath.Join(wd, ".gitattributes"))
+			if strings.Join(strings.Fields(string(now)), " ") != strings.Join(strings.Fields(was), " ") {
+				fail("a refused pattern left .gitattributes with other entries than before", fmt.Sprintf("%q -> %q", was, string(now)), "")
+			}
+		}
 		return
 	}
 	attrs1, _ := os.ReadFile(filepath.Join(wd, ".gitattributes"))
